@@ -299,17 +299,29 @@ pub fn apply_honest(w: &mut World, n: usize, p: &Proof, c: &Concrete) -> bool {
     w.logf(|| format!("apply n{n} -> {}", r.brief()));
     let clause = if c.straddle { "C03.straddle" } else { "C03.accept" };
     // model after acceptance
-    let mut after = w.nodes[n].model.clone();
-    if p.upgrade.is_some() {
-        after.length = w.truth.len();
-        after.byte_length = w.truth.byte_length();
-    }
-    if let Some(b) = &p.block {
-        after.held.insert(b.index, w.truth.blocks[b.index as usize].clone());
+    let light = w.cfg.no_snapshots;
+    let mut after = if light { crate::model::Model::default() } else { w.nodes[n].model.clone() };
+    let advance = |m: &mut crate::model::Model, w: &World| {
+        if p.upgrade.is_some() {
+            m.length = w.truth.len();
+            m.byte_length = w.truth.byte_length();
+        }
+        if let Some(b) = &p.block {
+            m.held.insert(b.index, w.truth.blocks[b.index as usize].clone());
+        }
+    };
+    if !light {
+        advance(&mut after, w);
     }
     match r {
         Res::Ok(true) => {
-            w.nodes[n].model = after;
+            if light {
+                let mut m = std::mem::take(&mut w.nodes[n].model);
+                advance(&mut m, w);
+                w.nodes[n].model = m;
+            } else {
+                w.nodes[n].model = after;
+            }
             if let Some(b) = &p.block {
                 w.nodes[n].became.insert(b.index);
             }
